@@ -306,7 +306,16 @@ class Exec:
               'addr': [(d_old['server'], 1), (d_old['server'], 28), (d_old['type'], 12)], 'any': [(d_old['name'], 255), (d_old['type'], 12)]}[shape]
         w.net.inject(host, rp.build_query([(nm, t, False) for nm, t in qs], [], qid=0), (CLIENT_IP, 5353))
         await asyncio.sleep(gap / 1000.0)
-        info = sim.make_service_info(d)
+        if what in ('port', 'addrs') and n % 2 == 1:
+            # the application changes the registered object in place and hands the same object to async_update_service
+            info = self.infos[k]
+            if what == 'port':
+                info.port = d['port']
+            else:
+                info.addresses = [rp.addr_bytes(a) for a in d['addrs']]
+            self.stats['update_races_in_place'] = self.stats.get('update_races_in_place', 0) + 1
+        else:
+            info = sim.make_service_info(d)
         queued = len(host.zc.out_queue.queue) + len(host.zc.out_delay_queue.queue)
         task = await host.azc.async_update_service(info)
         w.gseq += 1
